@@ -991,7 +991,8 @@ func farRun(sc *Scenario) any {
 	blk := content.Range(uint64(sc.ID)+3, 0, CS)
 	for i := 0; i < np; i++ {
 		if _, _, err := ps.AddData(uint32(i), 0, blk, 1); err != nil {
-			out.Note = fmt.Sprintf("AddData(%d): %v", i, err)
+			// the machine does not give us that much address space: no verdict from this scenario
+			out.Nonconf = append(out.Nonconf, fmt.Sprintf("far store not established: AddData(%d): %v", i, err))
 			ps.Del()
 			return out
 		}
